@@ -682,3 +682,59 @@ W["construct_permutation"] = dict(
                                 for inv in _it.product(*[range(n - t) for t in range(m)])),
                 ghost_post=lambda res, inversion_sequence, orig_n: {}),
 )
+
+# ------------------------------------------------------------------ block.py: Block._get_previous_trials_variable_count (C14)
+# CNT(u) = number of trials t' in 1..u-1 to which the factor applies (with sustain: trial t' belongs to run (t'-1)//SC + 1).  The memo table may hold
+# any subset of correct entries (representation invariant); the result does not depend on what is cached, and the entries of other factors are untouched.
+_PC_CNT = "sum(j, 1, {u}, ite(applies((j - 1) // SC + 1), 1, 0))"
+_PC_INV = "forall(u, implies((f, u) in CACHE, u >= 1 and CACHE[(f, u)] == " + _PC_CNT.format(u="u") + "))"
+
+
+def _pc_domain():
+    import itertools as it
+    for trial in range(1, 8):
+        for SC in (1, 2):
+            for START, STRIDE in ((0, 1), (1, 1), (0, 2), (2, 3)):
+                for cached in ([], [3], [2, 5], [1, 4, 6]):
+                    yield dict(trial=trial, SC=SC, START=START, STRIDE=STRIDE, cached=[u for u in cached])
+
+
+def _pc_call(fn, trial, SC, START, STRIDE, cached):
+    app = lambda u: u - 1 >= START and (u - 1 - START) % STRIDE == 0
+    class _F:
+        applies_to_trial = staticmethod(app)
+    fobj = _F()
+    other = object()
+    cnt = lambda u: sum(1 for j in range(1, u) if app((j - 1) // SC + 1))
+    cache = {(fobj, u): cnt(u) for u in cached}
+    cache[(other, 3)] = 777
+    stub = _types.SimpleNamespace(sustain_count=lambda _f: SC, _cached_previous_count=cache)
+    r = fn(stub, fobj, trial)
+    bad = [k for k, v in cache.items() if k[0] is fobj and v != cnt(k[1])]
+    return (r, cnt(trial), bad, cache.get((other, 3)))
+
+
+def _pc_check(res, **kw):
+    r, want, bad, other = res
+    return None if r == want and not bad and other == 777 else f"returned {r}, expected {want}; wrong cache entries {bad}; foreign entry {other}"
+
+
+W["previous_trials_variable_count"] = dict(
+    id="previous_trials_variable_count", target="sweetpea._internal.block:Block._get_previous_trials_variable_count", prop=["C14"],
+    params={"f": "obj", "trial": "int"},
+    self_fields={"self.sustain_count(f)": ("SC", "int")},
+    self_state={"self._cached_previous_count": ("CACHE", "dict[pair,int]")},
+    spec_funcs={"applies": (["int"], "bool")},
+    uses={"f.applies_to_trial": dict(params={"t": "int"}, requires=["t >= 1"], returns="bool", ensures=["result == applies(t)"])},
+    requires=["trial >= 1", "SC >= 1", _PC_INV],
+    loops={0: dict(types={"maybe_count": "opt[int]"}, invariant=["1 <= t", "t <= trial", _PC_INV,
+                              "forallo(g, forall(u, implies(g != f, iff((g, u) in CACHE, (g, u) in old(CACHE)) and CACHE[(g, u)] == old(CACHE)[(g, u)])))"],
+                   decreases="t"),
+           1: dict(types={"count": "opt[int]"}, invariant=["1 <= t", "t <= trial", "not is_none(count)", "count == " + _PC_CNT.format(u="t"), _PC_INV,
+                              "forallo(g, forall(u, implies(g != f, iff((g, u) in CACHE, (g, u) in old(CACHE)) and CACHE[(g, u)] == old(CACHE)[(g, u)])))"],
+                   hints=["count == " + _PC_CNT.format(u="t")],
+                   decreases="trial - t")},
+    ensures=["result == " + _PC_CNT.format(u="trial"), _PC_INV,
+             "forallo(g, forall(u, implies(g != f, iff((g, u) in CACHE, (g, u) in old(CACHE)) and CACHE[(g, u)] == old(CACHE)[(g, u)])))"],
+    native=dict(call=_pc_call, domain=_pc_domain, check=_pc_check, skip_requires=True, skip_ensures=True),
+)
